@@ -596,12 +596,14 @@ def run(ctx):
     extra = []
     if ctx.quick:
         plan = [("build 8 paths x 8 cells <=3", "TreeDiffGen_build.cfg"),
-                ("diff 6 paths x 4 cells <=2", "TreeDiffGen_diff.cfg")]
+                ("diff 8 paths x 2 cells <=2", "TreeDiffGen_diff_q1.cfg"),
+                ("diff 3 paths x 5 cells <=2", "TreeDiffGen_diff_q2.cfg")]
     else:
         plan = [("build 8 paths x 8 cells <=4", "TreeDiffGen_build_t.cfg"),
                 ("diff 8 paths x 4 cells <=2", "TreeDiffGen_diff_t1.cfg"),
                 ("diff 6 paths x 5 cells <=2", "TreeDiffGen_diff_t2.cfg"),
-                ("diff 6 paths x 3 cells <=3", "TreeDiffGen_diff_t3.cfg")]
+                ("diff 6 paths x 3 cells <=3", "TreeDiffGen_diff_t3.cfg"),
+                ("diff 3 paths x 8 cells <=2", "TreeDiffGen_diff_t4.cfg")]
     total_cases = 0
     for label, cfg in plan:
         cases, n = gen_cases(ctx, label, cfg)
@@ -619,7 +621,7 @@ def run(ctx):
         os.remove(cases)
     for k in range(ctx.cov.get("nontrivial_cases", 0)):
         ctx.nontrivial(k)
-    rejected = trace_validation(ctx, ctx.pick(400, 12000), nsh, extra)
+    rejected = trace_validation(ctx, ctx.pick(1200, 12000), nsh, extra)
     report(ctx, outs, rejected)
     ctx.cov["cases_enumerated_by_tlc"] = total_cases
     ctx.cov["rule"] = ("a case = one listing (build/flatten/lookup, 3 input orders) or one ordered pair of listings (tree_changes under 8 flag "
